@@ -439,6 +439,7 @@ func runHistory(spec Spec) Result {
 
 func main() {
 	probe := flag.Bool("probe", false, "run the contract-behaviour probe")
+	probeAgent := flag.Bool("probe-agent", false, "run the agent-contract probe")
 	seed := flag.Uint64("seed", 1, "PRNG seed")
 	n := flag.Int("n", 20, "number of generated histories")
 	from := flag.Int("from", 0, "first history index to run")
@@ -450,6 +451,10 @@ func main() {
 	flag.Parse()
 	if *probe {
 		runProbe()
+		return
+	}
+	if *probeAgent {
+		runProbeAgent()
 		return
 	}
 	var specs []Spec
